@@ -985,6 +985,7 @@ class C09(CleanerCheck):
 
 class C10(CleanerCheck):
     flavour = "C10"
+    e2e_share = 0.06
     title = "Cleaning is a deterministic, order-preserving function of content and config"
     replicate = 1.0
     hashseed_is_property = True
